@@ -102,7 +102,17 @@ BreaksAfterStart == /\ st = "replied" /\ last \in Responses
                     /\ UNCHANGED <<pol, script, att, last, hosts, reply, applied, clock, deadline>>
 Finish == st = "replied" /\ st' = "done" /\ UNCHANGED <<pol, script, att, rem, last, hosts, reply, applied, clock, deadline>>
 
-Next == Attempt \/ Ends \/ BreaksAfterStart \/ Finish
+(* Named defect "PerTryTimerSurvivesRetry": the per-try timer of an attempt is not stopped when the attempt ends with another
+   (retryable) outcome; it expires while the next attempt is being set up - no attempt is pending - and the request is
+   handled as if an attempt had timed out: one more unit of the budget goes, or the timeout reply when none is left. *)
+StaleTryTimeout == /\ "PerTryTimerSurvivesRetry" \in Defects
+                   /\ st = "idle" /\ att > 0 /\ last \notin {"ptmo", "gtmo"}
+                   /\ last' = "ptmo"
+                   /\ IF rem > 0 /\ ImplRetryable(pol, "ptmo") THEN st' = "idle" /\ rem' = rem - 1 /\ reply' = reply
+                      ELSE st' = "replied" /\ rem' = rem /\ reply' = 599
+                   /\ UNCHANGED <<pol, script, att, hosts, applied, clock, deadline>>
+
+Next == Attempt \/ Ends \/ BreaksAfterStart \/ Finish \/ StaleTryTimeout
 Spec == Init /\ [][Next]_vars
 
 (* ---- the property ---- *)
@@ -116,6 +126,10 @@ RetryMade         == (st \in {"replied", "done"} /\ att < 1 + Budget(pol)) => ~R
 ActionsAppliedOnce == att >= 1 => applied = 1
 (* the effective timeout bounds the whole request: no attempt starts after it, the reply has started by then *)
 WithinGlobalTimeout == clock <= GUnits
+(* every unit of the budget that is spent buys an attempt: one per attempt after the first, plus the one of a retry that
+   has been admitted and not yet handed to its host.  (A per-try timeout is the outcome of a PENDING attempt: TOut of the
+   trace specification, per-try-timeout-of-ended-attempt.) *)
+BudgetSpentOnAttempts == att >= 1 => ImplBudget(pol) - rem = (att - 1) + (IF st = "idle" THEN 1 ELSE 0)
 ReplyIsLast       == st \in {"replied", "done"} => (IF last \in Responses THEN reply = Code(last) ELSE reply >= 500)
 
 (* the expected number of attempts of a behaviour, used by the case stream *)
